@@ -187,6 +187,10 @@ class Check:
         with open(f, "w") as fh:
             for e in events:
                 fh.write(json.dumps(e, separators=(",", ":")) + "\n")
+        if os.environ.get("VERIF_SAVE_TRACES"):   # tools/clausecov.py collects genuine traces this way
+            keep = Path(os.environ["VERIF_SAVE_TRACES"])
+            keep.mkdir(parents=True, exist_ok=True)
+            shutil.copyfile(f, keep / f"{self.pid}_{module}_{cfg}_{len(self.cov['tlc_runs'])}.ndjson")
         r = tlc.run_tlc(module, cfg, workers=1, env={"TRACE_FILE": str(f)}, timeout=timeout, java_opts=java_opts)
         if not r.ok:
             tail = "\n".join(r.out.splitlines()[-40:])
